@@ -41,11 +41,14 @@ func configs(r *eng.Run) []string {
 			ml  int
 			thr string
 		}{{0, "tiny"}, {2, "def"}, {2, "tiny"}, {3, "def"}, {3, "tiny"}} {
+			if est == "block" && mt.thr == "def" {
+				continue // with the 256 KiB default threshold the size mode cannot matter for these tiny sets
+			}
 			add(cfg{layout: "dyn", width: 8, maxLinks: mt.ml, thr: mt.thr, est: est})
 		}
 	}
 	add(cfg{layout: "dyn", width: 8, maxLinks: 0, thr: "def", est: "links"})
-	for _, ml := range []int{0, 2, 3} {
+	for _, ml := range []int{2, 3} {
 		add(cfg{layout: "dyn", width: 8, maxLinks: ml, thr: "def", est: "off"})
 	}
 	// ... and the other widths with one converting combination each
